@@ -447,6 +447,10 @@ public:
                               const std::string &type,
                               const std::vector<Column> &cols,
                               const Compression &compression=Compression::Auto) {
+        util::checkEntityNameAndType(name, type);
+        if (hasDataFrame(name)) {
+            throw DuplicateName("createDataFrame");
+        }
         std::set<std::string> names;
         for (const Column &c : cols) {
             if (!Variant::supports_type(c.dtype)) {
